@@ -18,7 +18,7 @@ DENIED_PREFIXES = ('llvm.va_',)
 CTX = None
 
 
-def scan(mod):
+def scan(mod, library=()):
     """-> (findings, counts); a finding is (key, text)."""
     out = []
     counts = {'globals': 0, 'functions': 0, 'call sites': 0, 'store sites': 0}
@@ -52,7 +52,7 @@ def scan(mod):
                         continue
                 else:
                     cal = c[1]
-                if cal in mod.functions:
+                if cal in mod.functions or cal in library:
                     continue
                 if (cal in ALLOWED_EXTERNALS or cal.startswith(ALLOWED_PREFIXES)) and not cal.startswith(DENIED_PREFIXES):
                     continue
@@ -114,6 +114,38 @@ def positive_control():
     return len(found)
 
 
+def header_inline_modules(ctx):
+    """Functions *defined in the public headers* (static inline) are compiled into the consumer's translation unit,
+    not into the library: one unit per header that takes the address of each of them (so that clang emits them) is
+    compiled and handed to the same rules.  -> [(header, module, [function names])]"""
+    import re
+    from .c20 import headers
+    out = []
+    d = os.path.join(ctx.workdir, 'hdr_inline_' + ctx.target)
+    os.makedirs(d, exist_ok=True)
+    _, std = build.library_units()
+    for k, h in enumerate(headers()):
+        text = open(os.path.join(build.REPO, 'include', h), errors='replace').read()
+        text = re.sub(r'/\*.*?\*/', ' ', text, flags=re.S)
+        names = sorted(set(m.group(1) for m in re.finditer(
+            r'\b(?:static\s+(?:inline|__inline__|__inline)|(?:inline|__inline__|__inline)\s+static)\b[^;{}()]*?\b(\w+)\s*\([^;{}]*\)\s*\{', text)))
+        if not names:
+            continue
+        src = os.path.join(d, 'inl_%d.c' % k)
+        with open(src, 'w') as f:
+            f.write('#include "%s"\n' % h)
+            for n in names:
+                f.write('void *verif_keep_%s = (void *)%s;\n' % (n, n))
+        try:
+            bcs = build.compile_units([src], os.path.join(d, 'bc%d' % k), target=ctx.target, std=std)
+        except build.BuildError as e:
+            raise Broken('unit instantiating the inline functions of include/%s does not compile: %s' % (h, str(e)[-300:]))
+        ll = os.path.join(d, 'inl_%d.ll' % k)
+        build.link_ll(bcs, ll)
+        out.append((h, irparse.parse_module(open(ll).read(), ll), names))
+    return out
+
+
 def _getter_effects(t):
     fmt, idx, path = t
     f = CTX.formats[fmt]
@@ -139,6 +171,18 @@ def run(ctx, tier, res, tag=''):
     res.ok(counts['globals'] + counts['call sites'] + counts['store sites'] - len(found))
     for key, text in found:
         res.violation(key + tag, text)
+    # functions defined in the public headers live in the consumer's unit: same rules
+    if not tag:
+        ninl = 0
+        for h, m, names in header_inline_modules(ctx):
+            f2, c2 = scan(m, library=ctx.mod.functions)
+            ninl += len(names)
+            bad = [(k, t) for (k, t) in f2 if not k.startswith('global:verif_keep_')]
+            res.ok(len(names) if not bad else 0)
+            for key, text in bad:
+                res.violation('header-inline:%s:%s' % (os.path.basename(h), key), 'include/%s (inline functions compiled into the '
+                              'caller\'s unit): %s' % (h, text))
+        res.count('functions defined in public headers inspected (static inline)', ninl)
     # units: exactly what CMake builds into the libraries
     res.extra['units'] = ['%s: %s' % u for u in ctx.units]
     listed = set(s for (_, s) in ctx.units)
